@@ -358,3 +358,25 @@ func CurProcEnv() ProcEnv {
 	}
 	return nil
 }
+
+// ---- standard input of an in-process command ----
+
+var stdinHook atomic.Pointer[io.Reader]
+
+// SetStdin makes r (nil: nothing) the standard input of the command the
+// harness runs in-process: a pipe, i.e. readable once and not seekable.
+func SetStdin(r io.Reader) {
+	if r == nil {
+		stdinHook.Store(nil)
+		return
+	}
+	stdinHook.Store(&r)
+}
+
+// Stdin returns the piped standard input or nil.
+func Stdin() io.Reader {
+	if p := stdinHook.Load(); p != nil {
+		return *p
+	}
+	return nil
+}
